@@ -2,6 +2,7 @@ import Pyunicorn.Model.Proto
 import Pyunicorn.Model.Net
 import Pyunicorn.Model.NetBetw
 import Pyunicorn.Model.NetBetwDef
+import Pyunicorn.Model.NetRW
 /-! Line-protocol driver for C03: one request per line on stdin, one answer per line. -/
 open Pyunicorn Pyunicorn.Proto Pyunicorn.Net
 
@@ -117,6 +118,37 @@ def answer (toks : List String) : String :=
   | ["wlc", w] =>
     let W := ratMat w; let n := W.length; let f := ratMatFn W
     vec n fun i => showOptRat (weightedLocalClustering n f i)
+  | ["motifw", m, cm] =>
+    -- link-weighted motif clustering: adjacency matrix and the matrix of cubic roots of the link weights
+    let M := boolMat m; let n := M.length; let a := adjOf M; let c := ratMatFn (ratMat cm)
+    join [vec n fun i => showRat (cycleCW n a c i), vec n fun i => showRat (midCW n a c i),
+          vec n fun i => showRat (inCW n a c i), vec n fun i => showRat (outCW n a c i)] ";"
+  | ["newman", m] =>
+    let M := boolMat m; let n := M.length; let a := adjOf M
+    match newmanBetweenness n a with
+    | none => "singular"
+    | some r => showRats r
+  | ["newmankernel", am, vm, N, st, en] =>
+    -- the Cython kernel at its own boundary: rows `this_A`, full `V`
+    let M := boolMat am; let V := ratMatFn (ratMat vm)
+    showRats (newmanKernel (fun i j => (M.getD i []).getD j false) V N.toNat! st.toNat! en.toNat!)
+  | ["newmandef", m] =>
+    -- per component of size >= 2: reduced Kirchhoff matrix times the computed inverse is the identity,
+    -- and kernel + normalisation equals the definition `Σ_{t<s} I_i^{st} / ((N-1)/2)`
+    let M := boolMat m; let n := M.length; let a := adjOf M
+    let ok := (components n a).all fun comp =>
+      let N := comp.length
+      if N < 2 then true else
+      let b := subAdj a comp
+      match ratInv (reducedKirchhoff N b) with
+      | none => false
+      | some inv =>
+        let K := matFn (reducedKirchhoff N b); let V := matFn inv
+        ((List.range (N - 1)).all fun i => (List.range (N - 1)).all fun j =>
+            sumToQ (N - 1) (fun k => K i k * V k j) == (if i = j then 1 else 0)) &&
+        ((List.range N).all fun i =>
+            newmanNormalise N (newmanRow N (b i) V i) == newmanDef N b V i)
+    if ok then "1" else "0"
   | _ => "bad-request"
 where
   /-- adjacency lists: rows separated by `;`, an empty row is `-` -/
